@@ -23,7 +23,7 @@ LIMIT = 0x3000
 
 # the non-ASCII part of the filename alphabet (harness/uploadlib.py draws from ASCII + this)
 ALPHABET_WIDE = (
-    '\x80\x85\xa0\xad\xe9\xc9\xfc\xf1\xdf\xf8\xc5\xaa\xb2\xbd\xb7\xff'
+    '\x80\x85\xa0\xad\xe9\xc9\xfc\xdc\xe7\xc0\xf1\xdf\xf8\xc5\xaa\xb2\xbd\xb7\xff'
     'ıŁ̧́̈ΐЖאاก'
     '    ​․‥…  ‮ ⁄ ⁠™℃ÅⅠ①⑴'
     '　、あァ㎏中文가한ﬁﬃ﹒﻿－．／Ａ＼＿ａ０ﾠ�'
